@@ -37,7 +37,7 @@ type item struct {
 
 func scalarItem[T comparable](helper string, x T) *item {
 	return &item{helper: helper, desc: fmt.Sprintf("%T(%v)", x, x),
-		write: func(w io.WriteSeeker) error { return stream.Write(w, x) },
+		write: func(w io.WriteSeeker) error { return writeScalar(w, x) },
 		read: func(r io.ReadSeeker) (string, error) {
 			got, err := readScalar[T](r)
 			if err != nil {
@@ -48,6 +48,36 @@ func scalarItem[T comparable](helper string, x T) *item {
 			}
 			return "", nil
 		}}
+}
+
+func writeScalar[T comparable](w io.Writer, x T) error {
+	switch v := any(x).(type) {
+	case bool:
+		return stream.Write(w, v)
+	case uint8:
+		return stream.Write(w, v)
+	case uint16:
+		return stream.Write(w, v)
+	case uint32:
+		return stream.Write(w, v)
+	case uint64:
+		return stream.Write(w, v)
+	case int8:
+		return stream.Write(w, v)
+	case int16:
+		return stream.Write(w, v)
+	case int32:
+		return stream.Write(w, v)
+	case int64:
+		return stream.Write(w, v)
+	case A32:
+		return stream.Write(w, v)
+	case A36:
+		return stream.Write(w, v)
+	case A38:
+		return stream.Write(w, v)
+	}
+	panic("unsupported scalar")
 }
 
 func readScalar[T comparable](r io.Reader) (T, error) {
